@@ -94,10 +94,15 @@ pub fn control_block(r: &mut Rg) -> ControlBlock {
         2 => 128,
         _ => r.gen_range(0..8),
     };
-    let mut b = vec![leaf_version(r).as_u8() | r.gen_range(0..2u8)];
-    b.extend_from_slice(&xonly(r).serialize());
-    b.extend(bytes(r, 32 * depth));
-    ControlBlock::from_slice(&b).expect("well-formed control block")
+    // assembled from its public parts (not through the slice parser, which is one of the things
+    // the PSET decoder is checked against)
+    let path: Vec<elements::taproot::TapNodeHash> = (0..depth).map(|_| elements::taproot::TapNodeHash::from_byte_array(arr32(r))).collect();
+    ControlBlock {
+        leaf_version: leaf_version(r),
+        output_key_parity: if r.gen_range(0..2u8) == 0 { zkp::Parity::Even } else { zkp::Parity::Odd },
+        internal_key: xonly(r),
+        merkle_branch: elements::taproot::TaprootMerkleBranch::from_inner(path).expect("at most 128 nodes"),
+    }
 }
 
 pub fn small_script(r: &mut Rg) -> Script {
@@ -363,11 +368,24 @@ pub fn output(r: &mut Rg, p: P) -> Output {
     let has = |r: &mut Rg| chance(r, p.0, p.1);
     let mut o = Output { script_pubkey: small_script(r), ..Output::default() };
     // blinding state: 0 explicit unmarked, 1 marked not yet blinded, 2 fully blinded (+ optional explicit fields)
-    let state = r.gen_range(0..3);
+    // 3 / 4: partially blinded (explicit amount with an asset commitment only, and the reverse)
+    let state = if chance(r, 1, 6) { r.gen_range(3..5) } else { r.gen_range(0..3) };
     match state {
         0 => {
             o.amount = Some(r.gen());
             o.asset = Some(AssetId::from_byte_array(arr32(r)));
+        }
+        3 => {
+            o.amount = Some(r.gen());
+            o.asset_comm = Some(super::generator(r));
+            o.asset_surjection_proof = Some(surjectionproof(r));
+            o.blinder_index = Some(r.gen_range(0..4));
+        }
+        4 => {
+            o.amount_comm = Some(super::pedersen(r));
+            o.asset = Some(AssetId::from_byte_array(arr32(r)));
+            o.value_rangeproof = Some(rangeproof(r, false));
+            o.blinder_index = Some(r.gen_range(0..4));
         }
         1 => {
             o.amount = Some(r.gen());
